@@ -415,6 +415,9 @@ class C17Executor(Executor):
         o = self._ol(st, v)
         if o is not None:
             return VBool(True) if o.data["tail"] else VBool(o.data["blen"] > 0)
+        if isinstance(v, VExt) and v.sort == "Bytes":
+            from contracts import C17_glue as G
+            return VBool(G.NONEMPTY(v.t))           # b"" is false (round 6; the engine's default for an abstract value is True)
         return super().truth(st, v)
 
     def b_len(self, st, args, kwargs, node):
@@ -547,6 +550,9 @@ EXECUTOR = C17Executor
 EXECUTOR_KW = {f"{MSG}::_looks_like_html": {"opaque_str": True}}
 from contracts import C17_glue as _G  # noqa: E402
 EXECUTOR_KW.update({t: dict(_G.GLUE_KW) for t in _G.TARGETS})
+# round 6: which strategy decides in _extract_from_mhtml -- helpers are NOT executed in place (their result is any value; the clause is
+# about the order of the strategies, and two inlined scans multiply to > 20000 paths); a low path limit keeps `unknown` cheap
+EXECUTOR_KW[f"{MHTML}::_extract_from_mhtml"] = dict(_G.GLUE_KW, inline_local=False, max_paths=3000)
 
 
 def m_lower(ex, st, args, kwargs, node):
